@@ -421,24 +421,75 @@ func init() {
 			default:
 				j := c.Idx - 22
 				if c.Tier == "thorough" && j < 512 {
-					// exhaustive 32-bit: 512 shards of 2^23 values, alternating int32 / uint32
+					// exhaustive 32-bit: 512 shards of 2^24 values, alternating int32 / uint32 (no big.Int
+					// on this path: 2^33 values are encoded and decoded)
+					signed := j%2 == 0
+					shard := int64(j / 2)
 					k := intKinds[2]
-					if j%2 == 1 {
+					if !signed {
 						k = intKinds[7]
 					}
-					shard := int64(j / 2)
-					base := new(big.Int).Add(k.min(), big.NewInt(shard<<24))
-					vals := make([]*big.Int, 0, chunk)
-					sub := 0
-					for off := int64(0); off < 1<<24; off++ {
-						vals = append(vals, new(big.Int).Add(base, big.NewInt(off)))
-						if len(vals) == chunk {
-							// encode every value; decode every value (batched)
-							c16EncodeBatchFast(c, sub, k, vals)
-							sub++
-							vals = vals[:0]
-						}
+					base := shard << 24
+					if signed {
+						base += math.MinInt32
 					}
+					const chunk32 = 8192
+					i32 := make([]int32, chunk32)
+					u32 := make([]uint32, chunk32)
+					buf := make([]byte, 0, chunk32*12)
+					sub := 0
+					for off := int64(0); off < 1<<24; off += chunk32 {
+						buf = append(buf[:0], '[')
+						for n := int64(0); n < chunk32; n++ {
+							v := base + off + n
+							if n > 0 {
+								buf = append(buf, ',')
+							}
+							if signed {
+								i32[n] = int32(v)
+							} else {
+								u32[n] = uint32(v)
+							}
+							buf = strconv.AppendInt(buf, v, 10)
+						}
+						buf = append(buf, ']')
+						if !c.Cur(sub, fmt.Sprintf("exhaustive %s from %d", k.name, base+off)) {
+							sub++
+							continue
+						}
+						var out []byte
+						var err error
+						ok := true
+						if signed {
+							out, err = gojson.Marshal(i32)
+							var back []int32
+							err2 := gojson.Unmarshal(buf, &back)
+							ok = err == nil && err2 == nil && string(out) == string(buf) && len(back) == chunk32
+							for n := 0; ok && n < chunk32; n++ {
+								ok = back[n] == i32[n]
+							}
+						} else {
+							out, err = gojson.Marshal(u32)
+							var back []uint32
+							err2 := gojson.Unmarshal(buf, &back)
+							ok = err == nil && err2 == nil && string(out) == string(buf) && len(back) == chunk32
+							for n := 0; ok && n < chunk32; n++ {
+								ok = back[n] == u32[n]
+							}
+						}
+						c.Eval(2)
+						if !ok {
+							// fall back to the slow, localising path for this chunk
+							vals := make([]*big.Int, 0, chunk32)
+							for n := int64(0); n < chunk32; n++ {
+								vals = append(vals, big.NewInt(base+off+n))
+							}
+							c16EncodeBatch(c, sub, k, vals)
+							c16DecodeBatch(c, sub, k, vals)
+						}
+						sub++
+					}
+					c.NonTrivialEnum(1 << 24)
 					c.Obs("exhaustive32_values", 1<<24)
 					return
 				}
